@@ -38,13 +38,89 @@ def observe(stream, n=None):
     return {"e": "out", "n": n, "o": c.out, "closed": bool(c.transport.disconnecting)}, x
 
 
-def make_trace(labels, stream, cuts=()):
-    evs, diag = [], []
+def observe_split(stream, cuts):
+    """Deliver the whole stream to a fresh real connection in len(cuts)+1 pieces (nothing more once the server
+    asked the transport to close, as a real transport); return the 'out' event for all the octets."""
+    A = _adapter()
+    c = A.Conn(record="c19")
+    off = 0
+    x = "ok"
+    for n in list(cuts) + [len(stream)]:
+        if n > off and c.can_deliver():
+            y = c.deliver(stream[off:n])
+            x = y if y != "ok" else x
+        off = max(off, n)
+    return {"e": "out", "n": len(stream), "o": c.out, "closed": bool(c.transport.disconnecting)}, x
+
+
+def make_trace(labels, stream, cuts=(), plans=()):
+    """One event per one-piece delivery of a prefix (cuts) and of the whole stream, plus one event per DISTINCT
+    observation among the split deliveries in `plans` (identical observations are the same input to TLC's
+    reference relation, so they are validated once; how many runs stand behind each event is kept in 'runs')."""
+    import json
+    evs, diag, runs = [], [], []
     for n in list(cuts) + [len(stream)]:
         e, x = observe(stream, n)
         evs.append(e)
         diag.append(x)
-    return {"cfg": {}, "stream": list(stream), "ev": evs, "labels": labels, "diag": diag}
+        runs.append(1)
+    seen = {json.dumps(evs[-1], sort_keys=True): len(evs) - 1}
+    examples = []
+    for pl in plans:
+        e, x = observe_split(stream, pl)
+        if x != "ok":
+            e["o"] = e["o"] + [{"k": "exc", "x": x}]
+        key = json.dumps(e, sort_keys=True)
+        if key in seen:
+            runs[seen[key]] += 1
+        else:
+            seen[key] = len(evs)
+            evs.append(e)
+            diag.append(x)
+            runs.append(1)
+            examples.append([len(evs) - 1, list(pl)])
+    return {"cfg": {}, "stream": list(stream), "ev": evs, "labels": labels, "diag": diag, "runs": runs,
+            "split_examples": examples, "nplans": len(plans)}
+
+
+def split_plans(stream, rng, quick, hot=None, chunked=False):
+    """Cut plans for one stream.  hot = positions inside / next to chunk-size lines (known by construction)."""
+    n = len(stream)
+    if n < 2:
+        return []
+    near = sorted({p for i, b in enumerate(stream) if b in (13, 10) for p in (i, i + 1) if 0 < p < n})
+    plans = set()
+    if hot is not None:
+        # the chunked family: every cut inside a size line (quick) / every cut (thorough); pairs of cuts
+        ones = set(hot) | ({rng.randrange(1, n) for _ in range(8)} if quick else set(range(1, n)))
+        plans.update((c,) for c in ones)
+        if quick:
+            for _ in range(40):
+                a, b = rng.choice(hot), rng.choice(hot + near)
+                if a != b:
+                    plans.add(tuple(sorted((a, b))))
+        elif n <= 200:
+            plans.update((a, b) for a in range(1, n) for b in range(a + 1, n))
+        else:
+            hs = sorted(set(hot) | set(near))
+            plans.update((a, b) for a in hs for b in hs if a < b)
+            for _ in range(3000):
+                a, b = rng.randrange(1, n), rng.randrange(1, n)
+                if a != b:
+                    plans.add(tuple(sorted((a, b))))
+    elif chunked and n <= 400:
+        # any other stream with a chunked body: every single cut (quick: those next to CR / LF and a sample)
+        ones = set(near) | {rng.randrange(1, n) for _ in range(10)} if quick else set(range(1, n))
+        plans.update((c,) for c in ones)
+        for _ in range(3 if quick else 40):
+            a, b = rng.choice(near), rng.randrange(1, n)
+            if a != b:
+                plans.add(tuple(sorted((a, b))))
+    else:
+        for _ in range(2 if quick else 6):
+            k = rng.randint(1, 3)
+            plans.add(tuple(sorted({rng.choice(near) if near and rng.random() < 0.6 else rng.randrange(1, n) for _ in range(k)})))
+    return sorted(plans)
 
 
 def outcome(ev):
@@ -62,7 +138,8 @@ def fingerprint(trace, rej):
     """<catalogue label of the single mutation in the stream>|<was a 400 written?>"""
     e = trace["ev"][rej.reached] if rej.reached < len(trace["ev"]) else None
     labels = [x for x in trace["labels"] if x != "after-valid"]
-    return "%s|%s" % (",".join(labels), "answered-400" if e and "raw400" in outcome(e) else "no-400")
+    split = any(i == rej.reached for (i, _) in trace.get("split_examples", []))
+    return "%s|%s%s" % (",".join(labels), "answered-400" if e and "raw400" in outcome(e) else "no-400", "|split" if split else "")
 
 
 def mutate(t, rng):
@@ -108,6 +185,8 @@ def run(ctx):
     A = _adapter()
     run_mc(ctx)
     traces = []
+    for label, s, hot in A.chunked_family():
+        traces.append(make_trace([label], s, (), split_plans(s, ctx.rng, ctx.quick, hot=hot)))
     for labels, s in A.c19_streams(ctx.rng, thorough=not ctx.quick, nrandom=ctx.pick(200, 1500)):
         cuts = ()
         x = ctx.rng.random()
@@ -115,23 +194,30 @@ def run(ctx):
             cuts = sorted({ctx.rng.randrange(len(s)) for _ in range(2)})
         elif x < ctx.pick(0.4, 0.6) and s.endswith(A.FOLLOW):
             cuts = (len(s) - len(A.FOLLOW),)      # exactly the end of the request under test: complete => handed over now
-        traces.append(make_trace(labels, s, cuts))
+        chunked = b"chunked" in s.lower()
+        traces.append(make_trace(labels, s, cuts, split_plans(s, ctx.rng, ctx.quick, chunked=chunked)))
+    ctx.extra["split_deliveries"] = sum(t["nplans"] for t in traces)
+    ctx.extra["distinct_split_observations"] = sum(len(t["split_examples"]) for t in traces)
     crashes = sum(1 for t in traces for x in t["diag"] if x != "ok")
     ctx.extra["dataReceived_exceptions"] = crashes
     slim = [{"cfg": t["cfg"], "stream": t["stream"], "ev": t["ev"]} for t in traces]
     for t in slim:
         ctx.note_trace(t, nontrivial=any(e["o"] for e in t["ev"]))
-    ctx.log("recorded %d streams (%d octets, %d real runs)" % (len(traces), sum(len(t["stream"]) for t in traces), sum(len(t["ev"]) for t in traces)))
+    ctx.log("recorded %d streams (%d octets), %d one-piece runs, %d split deliveries, %d events for TLC" % (
+        len(traces), sum(len(t["stream"]) for t in traces), sum(len(t["ev"]) - len(t["split_examples"]) for t in traces),
+        sum(t["nplans"] for t in traces), sum(len(t["ev"]) for t in traces)))
     rej = ctx.validate("HttpSrvWireTrace", slim, shard_size=ctx.pick(150, 500))
     for x in rej:
         if len(ctx.violations) >= 25:
             break
         t = traces[x.idx]
         e = t["ev"][x.reached]
+        plan = [pl for (i, pl) in t["split_examples"] if i == x.reached]
         ctx.violation(fingerprint(t, x),
-                      "real HTTPChannel output not allowed by the RFC 9112 reference (HttpSrvWire.tla): stream %r delivered %d octets -> %s, closed=%s" % (
-                          bytes(t["stream"]), e["n"], outcome(e), e["closed"]),
-                      dict(stream=bytes(t["stream"]).hex(), labels=t["labels"], cuts=[v["n"] for v in t["ev"]]))
+                      "real HTTPChannel output not allowed by the RFC 9112 reference (HttpSrvWire.tla): stream %r delivered %d octets %s -> %s, closed=%s" % (
+                          bytes(t["stream"]), e["n"], ("cut at %s" % plan[0]) if plan else "in one piece", outcome(e), e["closed"]),
+                      dict(stream=bytes(t["stream"]).hex(), labels=t["labels"],
+                           cuts=[v["n"] for v in t["ev"][:len(t["ev"]) - len(t["split_examples"])]], plans=plan))
     bad = {x.idx for x in rej}
     good = [slim[i] for i in range(len(slim)) if i not in bad and slim[i]["ev"][-1]["o"]]
     ctx.rng.shuffle(good)
@@ -165,7 +251,8 @@ def run_mc(ctx):
 
 def replay(ctx, obj):
     s = bytes.fromhex(obj["stream"])
-    t = make_trace(obj.get("labels", ["replay"]), s, [n for n in obj.get("cuts", []) if n != len(s)])
+    t = make_trace(obj.get("labels", ["replay"]), s, [n for n in obj.get("cuts", []) if n != len(s)],
+                   [tuple(pl) for pl in obj.get("plans", [])])
     slim = {"cfg": t["cfg"], "stream": t["stream"], "ev": t["ev"]}
     ctx.note_trace(slim, nontrivial=True)
     rej = ctx.validate("HttpSrvWireTrace", [slim])
@@ -175,4 +262,4 @@ def replay(ctx, obj):
     for x in rej:
         e = t["ev"][x.reached]
         ctx.violation(fingerprint(t, x), "replayed stream rejected: %r -> %s" % (s[:e["n"]], outcome(e)),
-                      dict(stream=obj["stream"], labels=t["labels"], cuts=[v["n"] for v in t["ev"]]))
+                      dict(stream=obj["stream"], labels=t["labels"], cuts=obj.get("cuts", []), plans=obj.get("plans", [])))
